@@ -182,6 +182,7 @@ fn sequence_doc_with(
     let mut first = pretty::nil();
     let mut rest = Vec::new();
     let mut prev_tall = false;
+    let mut prev_ends_in_tuple_name = false;
     for (index, chain) in sequence.chains.iter().enumerate() {
         let leading = if index == 0 && skip_first_leading {
             pretty::nil()
@@ -192,13 +193,19 @@ fn sequence_doc_with(
         };
         let body = chain_doc(trivia, chain);
         let tall = is_tall_step(chain, &body);
+        // A tuple name and a `(` on the next line read as one partial type/pattern (`A⏎() = x` is
+        // `A() = x`) — unless a comment stands between them.
+        let glued = prev_ends_in_tuple_name
+            && first_text(&body).is_some_and(|text| text.starts_with('('))
+            && !trivia.has_leading_comment(chain.span);
+        prev_ends_in_tuple_name = last_text(&body).is_some_and(ends_with_tuple_name);
         let item = pretty::concat(vec![leading, body, trivia.trailing_doc(chain.span)]);
         if index == 0 {
             first = item;
         } else {
             // A bare newline is not always a separator: where the next step would be read as a
             // continuation of the previous one, the comma is kept in the broken form too.
-            let comma = needs_explicit_comma(&sequence.chains[index - 1], chain);
+            let comma = glued || needs_explicit_comma(&sequence.chains[index - 1], chain);
             // Set a tall step off from its neighbours with a blank line (two newlines). `collapse_
             // blanks` caps a run at one, so this composes with any blank the author already left.
             if prev_tall || tall {
@@ -234,6 +241,41 @@ fn needs_explicit_comma(previous: &Chain, next: &Chain) -> bool {
             .terms
             .last()
             .is_some_and(|term| needs_explicit_pipe(term, &next.terms[0]))
+}
+
+/// Whether `text` ends in a tuple name: a maximal identifier run that starts with an uppercase
+/// letter. It may be the tail of a term (`A`), a pattern (`=A`) or a type (`#A`).
+fn ends_with_tuple_name(text: &str) -> bool {
+    let is_word = |c: char| c.is_ascii_alphanumeric() || c == '_';
+    let start = text
+        .char_indices()
+        .rev()
+        .take_while(|&(_, c)| is_word(c))
+        .last()
+        .map(|(index, _)| index);
+    start.is_some_and(|index| text[index..].starts_with(|c: char| c.is_ascii_uppercase()))
+}
+
+/// The first non-empty text atom of a doc as laid out (line suffixes are deferred, so skipped).
+fn first_text(doc: &Doc) -> Option<&str> {
+    match doc {
+        Doc::Text(text) if !text.is_empty() => Some(text),
+        Doc::Concat(docs) => docs.iter().find_map(first_text),
+        Doc::Nest(_, inner) | Doc::Group(inner, _) => first_text(inner),
+        Doc::IfBreak(broken, flat) => first_text(broken).or_else(|| first_text(flat)),
+        _ => None,
+    }
+}
+
+/// The last non-empty text atom of a doc as laid out (line suffixes are deferred, so skipped).
+fn last_text(doc: &Doc) -> Option<&str> {
+    match doc {
+        Doc::Text(text) if !text.is_empty() => Some(text),
+        Doc::Concat(docs) => docs.iter().rev().find_map(last_text),
+        Doc::Nest(_, inner) | Doc::Group(inner, _) => last_text(inner),
+        Doc::IfBreak(broken, flat) => last_text(broken).or_else(|| last_text(flat)),
+        _ => None,
+    }
 }
 
 /// Whether a sequence step renders across several lines as an *undelimited* pipeline, so it is set
